@@ -855,6 +855,27 @@ def tolerance_slots(check, prog):
                     v = const_of(k.value)
                     if k.arg in fd_ and v is not None:
                         bound[k.arg] = v
+                # by name: an argument called like another parameter of the callee
+                # than the one it lands in (eps2 handed over as eps1 ...)
+                def aname(a):
+                    if isinstance(a, ast.Name):
+                        return a.id
+                    if isinstance(a, ast.Attribute) and isinstance(a.value, ast.Name) \
+                            and a.value.id == 'self':
+                        return a.attr
+                    return None
+                landed = {}
+                for i, a in enumerate(call.args):
+                    if i < len(fnames) and aname(a) is not None:
+                        landed[fnames[i]] = aname(a)
+                for k in call.keywords:
+                    if k.arg is not None and aname(k.value) is not None:
+                        landed[k.arg] = aname(k.value)
+                for f, an in landed.items():
+                    if an != f and an in fnames and f in fd_ and an in fd_ and \
+                            landed.get(an) == f:
+                        if f < an:
+                            crossed.append((where, cname, f, an))
                 if len(bound) >= 2:
                     nforward += 1
                     wrong = {f: v for f, v in bound.items() if fd_[f] != v}
